@@ -17,6 +17,7 @@ macro_rules! dispatch {
     ($id:expr, $f:ident $(, $arg:expr)*) => {
         match $id {
             "C01" => $f::<props::c01::C01>($($arg),*),
+            "C02" => $f::<props::c02::C02>($($arg),*),
             other => {
                 eprintln!("unknown property {other}");
                 std::process::exit(2)
